@@ -174,12 +174,16 @@ def method_call(ex, recv, name, args, kw, st, node):
                 # opaque values (dict, datetime, ...) may have any method: fail closed
                 if name not in ('lower', 'strip', 'split', 'startswith', 'endswith', 'count', 'isdigit',
                                 'append', 'remove', 'insert', 'extend'):
-                    raise Unsupported('method %s on opaque value at line %s' % (name, node.lineno))
+                    ex.unsupported_if_feasible(opq, 'method %s on opaque value at line %s' % (name, node.lineno))
             out.append((other.raise_('AttributeError', node.lineno), None))
     return out
 
 
 def seqval_method(ex, recv, ctor, acc, name, args, kw, st, node):
+    if recv.op != 'ctor':
+        # receiver only possibly a sequence value: fail closed unless the path is dead
+        return ex.unsupported_if_feasible(st, 'method %s on possible %s value at line %s'
+                                          % (name, ctor, node.lineno))
     seq = Acc(acc, recv)
     if name == 'count' and len(args) == 1:
         items = seq_literal_items(seq)
@@ -355,6 +359,12 @@ def m_isdigit(ex, s, args, kw, st, node):
     return [(st, VBool(App('py_isdigit', BOOL, s)))]
 
 
+def m_isdecimal(ex, s, args, kw, st, node):
+    if s.op == 'str':
+        return [(st, VBool(boollit(s.args[0].isdecimal())))]
+    return [(st, VBool(App('py_isdecimal', BOOL, s)))]
+
+
 def m_lower(ex, s, args, kw, st, node):
     if s.op == 'str':
         return [(st, VStr(strlit(s.args[0].lower())))]
@@ -421,6 +431,7 @@ def m_find(ex, s, args, kw, st, node):
 STR_METHODS = {
     'strip': m_strip('both'), 'lstrip': m_strip('l'), 'rstrip': m_strip('r'),
     'split': m_split, 'startswith': m_startswith, 'endswith': m_endswith, 'isdigit': m_isdigit,
+    'isdecimal': m_isdecimal,
     'lower': m_lower, 'count': m_count, 'join': m_join, 'replace': m_replace, 'format': m_format,
     'capitalize': m_capitalize, 'find': m_find,
 }
@@ -836,5 +847,6 @@ SPEC_BUILTINS = {
     'is_list': _spec_pred(lambda v: Is('VList', v)),
     'is_none': _spec_pred(lambda v: Is('VNone', v)),
     'is_float': _spec_pred(lambda v: Is('VFloat', v)),
+    'same': _spec_pred(lambda a, b: Eq(a, b)),
     'all': s_all, 'any': s_any, 'implies': s_implies,
 }
